@@ -71,11 +71,18 @@ def check_literal(bloch, t, text):
 
 def main():
     bloch, mode = sys.argv[1], sys.argv[2]
-    seed = int(sys.argv[3]) if len(sys.argv) > 3 else 1
-    count = int(sys.argv[4]) if len(sys.argv) > 4 else 60
+    seed = int(sys.argv[3]) if len(sys.argv) > 3 and sys.argv[3].isdigit() else 1
+    count = int(sys.argv[4]) if len(sys.argv) > 4 and sys.argv[4].isdigit() else 60
     rnd = random.Random(seed)
     edge = {'int': [0, 1, -1, 7, -7, 2**31 - 1, -2**31], 'long': [0, 1, -1, 2**31, -2**63, 2**63 - 1], 'float': [0.0, 1.5, -2.25]}
     # the boundary cases first (division and remainder by 0 and -1, extreme values), then seeded random ones
+    if mode == 'pair':
+        # targeted replay of a counterexample: operand types and operator taken from the verifier's trace
+        t1, t2, op = sys.argv[3], sys.argv[4], sys.argv[5]
+        for a in edge[t1][:5] + [10, 3]:
+            for b in edge[t2][:5] + [4, 7]:
+                if not (op == '%' and 'float' in (t1, t2)): check_binary(bloch, t1, a, t2, b, op)
+        print(json.dumps(dict(oracle_checks=checks, oracle_failures=fails))); sys.exit(1 if fails else 0)
     for t1, t2 in (('long', 'long'), ('int', 'int'), ('int', 'long'), ('long', 'int')):
         for a in (edge[t1][-1], edge[t1][-2], 5):
             for b in (-1, 0, 3):
